@@ -13,7 +13,7 @@ pub const FRAMES: [(&str, &str); 5] = [
     ("xyzzy\n", "\nplugh"),
 ];
 
-pub const G_Q: [u32; 16] = [0, 1, 2, 3, 10, 11, 16, 21, 28, 71, 80, 91, 100, 101, 180, 999];
+pub const G_Q: [u32; 18] = [0, 1, 2, 3, 9, 10, 11, 16, 19, 21, 28, 71, 80, 91, 100, 101, 180, 999];
 pub const G_T: [u32; 40] = [
     0, 1, 2, 3, 8, 9, 10, 11, 13, 16, 17, 19, 20, 21, 23, 28, 30, 31, 70, 71, 80, 81, 88, 90, 91, 99, 100, 101, 103,
     108, 110, 121, 180, 181, 188, 200, 280, 300, 900, 999,
